@@ -109,6 +109,40 @@ def topo_worker(cases, lay_by_key, extra):
     return res
 
 
+def include_name_cases():
+    """An isar include is a node of the model too, named after its file: a file
+    called like a local type must not count as that type (every order of the
+    three local definitions)."""
+    import itertools
+    import prophyc.model as pm
+    fails = []
+    work = tempfile.mkdtemp(prefix="vfincn-", dir=scratch_dir("topo"))
+    try:
+        with open(os.path.join(work, "S.xml"), "w") as f:
+            f.write('<x><struct name="Other"><member name="q" type="u8"/></struct></x>')
+        elems = {"S": '<struct name="S"><member name="a" type="u16"/></struct>',
+                 "User": '<struct name="User"><member name="s" type="S"/><member name="t" type="TS"/></struct>',
+                 "TS": '<typedef name="TS" type="S"/>'}
+        for order in itertools.permutations(sorted(elems)):
+            doc = ('<x xmlns:xi="http://www.w3.org/2001/XInclude"><xi:include href="S.xml"/>%s</x>'
+                   % "".join(elems[k] for k in order))
+            path = os.path.join(work, "main.xml")
+            with open(path, "w") as f:
+                f.write(doc)
+            status, nodes, _ = CL.run_main([path, "--isar", "--python_out", work])
+            base = {"check": "order", "isar": doc}
+            if status != "ok":
+                fails.append(dict(base, what="prophyc --isar failed on a valid input with an include: %s" % (nodes,)))
+                continue
+            names = [n.name for n in nodes["main"] if not isinstance(n, pm.Include)]
+            if sorted(names) != ["S", "TS", "User"] or not (names.index("S") < names.index("TS") < names.index("User")):
+                fails.append(dict(base, what="output order %r with an include named S.xml: S, TS, User must come in this "
+                                             "order" % (names,), output=names))
+    finally:
+        shutil.rmtree(work, ignore_errors=True)
+    return fails
+
+
 def c15(tier, replay):
     rep = Report("C15", tier)
     rep.assumptions = [
@@ -144,6 +178,8 @@ def c15(tier, replay):
         if not l["legal"]:
             raise MachineryError("graph rendering produced an environment the specification calls illegal")
         lay_by_key[key] = (l["lay"], idx)
+    for f in include_name_cases():
+        rep.violation(f, shadows.match("C15", f))
     jobs = _chunks(cases, NCPU)
     with ProcessPoolExecutor(max_workers=NCPU) as ex:
         results = list(ex.map(topo_worker, jobs, [lay_by_key] * len(jobs), [{"scratch": scratch_dir("topo")}] * len(jobs)))
